@@ -6,8 +6,10 @@ import (
 	"go/types"
 	"sort"
 	"strings"
+	"sync"
 
 	"golang.org/x/tools/go/ssa"
+	"golang.org/x/tools/go/ssa/ssautil"
 )
 
 func constStr(v ssa.Value) (string, bool) {
@@ -244,6 +246,11 @@ func stringConstsIn(fn *ssa.Function) map[string]bool {
 			}
 		}
 	})
+	for _, k := range constMapKeysIn(fn) {
+		if k.Kind() == constant.String {
+			out[constant.StringVal(k)] = true
+		}
+	}
 	return out
 }
 
@@ -260,6 +267,13 @@ func intConstsIn(fn *ssa.Function) map[int64]bool {
 			}
 		}
 	})
+	for _, k := range constMapKeysIn(fn) {
+		if k.Kind() == constant.Int {
+			if i, ok := constant.Int64Val(k); ok {
+				out[i] = true
+			}
+		}
+	}
 	return out
 }
 
@@ -318,4 +332,264 @@ func trimMod(p *Prog, s string) string {
 	s = strings.ReplaceAll(s, p.ModPath+"/", "")
 	s = strings.ReplaceAll(s, p.ModPath, "httpcache")
 	return s
+}
+
+func uniqStrings(in []string) []string {
+	var out []string
+	for i, s := range in {
+		if i == 0 || s != in[i-1] {
+			out = append(out, s)
+		}
+	}
+	return out
+}
+
+// ---- constant map literals held in unexported package-level variables (read-only lookup tables)
+
+type constMap struct {
+	g      *ssa.Global
+	keys   []constant.Value
+	vals   map[string][]constant.Value // key (ExactString) -> the value, or the struct value's fields in order
+	zero   []constant.Value            // the zero value (per field); nil entries for fields without a scalar zero
+	fields int                         // 0: scalar values; n>0: struct values with n fields
+}
+
+var constMapCache sync.Map   // *ssa.Global -> *constMap (nil when the variable is not a constant table)
+var pkgFuncsCache sync.Map   // *ssa.Package -> []*ssa.Function
+
+func pkgFunctions(pkg *ssa.Package) []*ssa.Function {
+	if v, ok := pkgFuncsCache.Load(pkg); ok {
+		return v.([]*ssa.Function)
+	}
+	var out []*ssa.Function
+	for fn := range ssautil.AllFunctions(pkg.Prog) {
+		if fn.Package() == pkg || fn.Parent() != nil && fn.Parent().Package() == pkg {
+			out = append(out, fn)
+		}
+	}
+	pkgFuncsCache.Store(pkg, out)
+	return out
+}
+
+func zeroConst(t types.Type) constant.Value {
+	b, ok := t.Underlying().(*types.Basic)
+	if !ok {
+		return nil
+	}
+	switch {
+	case b.Info()&types.IsBoolean != 0:
+		return constant.MakeBool(false)
+	case b.Info()&types.IsInteger != 0:
+		return constant.MakeInt64(0)
+	case b.Info()&types.IsString != 0:
+		return constant.MakeString("")
+	}
+	return nil
+}
+
+func constOrZero(v ssa.Value) constant.Value {
+	c, ok := v.(*ssa.Const)
+	if !ok {
+		return nil
+	}
+	if c.Value == nil {
+		return zeroConst(c.Type())
+	}
+	return c.Value
+}
+
+// constMapOf: g is an unexported package-level map assigned once, in the package initialiser, from a map literal
+// with constant keys and constant (scalar or flat struct) values, and never updated, deleted from or passed on.
+func constMapOf(g *ssa.Global) *constMap {
+	if v, ok := constMapCache.Load(g); ok {
+		cm, _ := v.(*constMap)
+		return cm
+	}
+	cm := buildConstMap(g)
+	if cm == nil {
+		constMapCache.Store(g, (*constMap)(nil))
+	} else {
+		constMapCache.Store(g, cm)
+	}
+	return cm
+}
+
+func buildConstMap(g *ssa.Global) *constMap {
+	if g.Pkg == nil || g.Object() == nil || g.Object().Exported() {
+		return nil
+	}
+	mt, ok := derefType(g.Type()).Underlying().(*types.Map)
+	if !ok {
+		return nil
+	}
+	cm := &constMap{g: g, vals: map[string][]constant.Value{}}
+	if st, ok := mt.Elem().Underlying().(*types.Struct); ok {
+		cm.fields = st.NumFields()
+		for i := 0; i < st.NumFields(); i++ {
+			cm.zero = append(cm.zero, zeroConst(st.Field(i).Type()))
+		}
+	} else {
+		z := zeroConst(mt.Elem())
+		if z == nil {
+			return nil
+		}
+		cm.zero = []constant.Value{z}
+	}
+	init := g.Pkg.Func("init")
+	if init == nil {
+		return nil
+	}
+	var mm *ssa.MakeMap
+	for _, fn := range pkgFunctions(g.Pkg) {
+		bad := false
+		instrsOf(fn, func(in ssa.Instruction) {
+			switch x := in.(type) {
+			case *ssa.Store:
+				if x.Addr == ssa.Value(g) {
+					m, ok := x.Val.(*ssa.MakeMap)
+					if fn != init || !ok || mm != nil {
+						bad = true
+						return
+					}
+					mm = m
+				}
+			case *ssa.UnOp:
+				if x.X != ssa.Value(g) {
+					return
+				}
+				if refs := x.Referrers(); refs != nil {
+					for _, r := range *refs {
+						switch y := r.(type) {
+						case *ssa.Lookup:
+							if y.X != ssa.Value(x) {
+								bad = true
+							}
+						case *ssa.Range, *ssa.DebugRef:
+						case *ssa.Call:
+							if b, ok := y.Call.Value.(*ssa.Builtin); !ok || b.Name() != "len" {
+								bad = true
+							}
+						default:
+							bad = true
+						}
+					}
+				}
+			default:
+				// the address of the variable itself must not be taken
+				for _, op := range in.Operands(nil) {
+					if *op == ssa.Value(g) {
+						bad = true
+					}
+				}
+			}
+		})
+		if bad {
+			return nil
+		}
+	}
+	if mm == nil || mm.Referrers() == nil {
+		return nil
+	}
+	for _, r := range *mm.Referrers() {
+		switch x := r.(type) {
+		case *ssa.Store:
+			if x.Val != ssa.Value(mm) || x.Addr != ssa.Value(g) {
+				return nil
+			}
+		case *ssa.DebugRef:
+		case *ssa.MapUpdate:
+			if x.Map != ssa.Value(mm) {
+				return nil
+			}
+			k := constOrZero(x.Key)
+			if k == nil {
+				return nil
+			}
+			var val []constant.Value
+			if cm.fields == 0 {
+				v := constOrZero(x.Value)
+				if v == nil {
+					return nil
+				}
+				val = []constant.Value{v}
+			} else {
+				ld, ok := x.Value.(*ssa.UnOp)
+				if !ok {
+					return nil
+				}
+				al, ok := ld.X.(*ssa.Alloc)
+				if !ok || al.Referrers() == nil {
+					return nil
+				}
+				val = append([]constant.Value(nil), cm.zero...)
+				for _, ar := range *al.Referrers() {
+					switch fa := ar.(type) {
+					case *ssa.FieldAddr:
+						if fa.Referrers() == nil {
+							return nil
+						}
+						for _, u := range *fa.Referrers() {
+							st, ok := u.(*ssa.Store)
+							if !ok || st.Addr != ssa.Value(fa) {
+								if _, isDbg := u.(*ssa.DebugRef); isDbg {
+									continue
+								}
+								return nil
+							}
+							v := constOrZero(st.Val)
+							if v == nil {
+								return nil
+							}
+							val[fa.Field] = v
+						}
+					case *ssa.UnOp, *ssa.DebugRef:
+					default:
+						return nil
+					}
+				}
+			}
+			cm.keys = append(cm.keys, k)
+			cm.vals[k.ExactString()] = val
+		default:
+			return nil
+		}
+	}
+	if len(cm.keys) == 0 {
+		return nil
+	}
+	return cm
+}
+
+// constMapLookup: v is `m[k]` (or a component of it) on a constant table; returns the table and the lookup.
+func constMapLookup(v ssa.Value) (*constMap, *ssa.Lookup) {
+	lk, ok := v.(*ssa.Lookup)
+	if !ok {
+		return nil, nil
+	}
+	ld, ok := lk.X.(*ssa.UnOp)
+	if !ok {
+		return nil, nil
+	}
+	g, ok := ld.X.(*ssa.Global)
+	if !ok {
+		return nil, nil
+	}
+	cm := constMapOf(g)
+	if cm == nil {
+		return nil, nil
+	}
+	return cm, lk
+}
+
+// constMapKeysIn: the keys of the constant tables looked up in fn.
+func constMapKeysIn(fn *ssa.Function) []constant.Value {
+	var out []constant.Value
+	instrsOf(fn, func(in ssa.Instruction) {
+		if v, ok := in.(ssa.Value); ok {
+			if cm, _ := constMapLookup(v); cm != nil {
+				out = append(out, cm.keys...)
+			}
+		}
+	})
+	return out
 }
